@@ -66,6 +66,9 @@ thread_local! {
     static LOG: RefCell<Vec<Event>> = RefCell::new(Vec::new());
     /// the program under execution (hooks that move RIP decode the instruction they skip)
     static PROG: RefCell<Vec<u8>> = RefCell::new(Vec::new());
+    /// a copy of the machine taken from inside a hook (a host that snapshots the emulator while handling an event)
+    /// (with the number of hooks that were registered at that moment)
+    static SNAP: RefCell<Option<(Axecutor, usize)>> = RefCell::new(None);
 }
 
 /// a hook error whose Display output is empty
@@ -140,6 +143,12 @@ fn hook_body(id: usize, ax: &mut Axecutor, m: SM) -> Result<HookResult, Box<dyn 
     } else {
         None
     };
+    if def.try_register && inv == 1 {
+        if let Ok(c) = catch(|| ax.clone()) {
+            let n = DEFS.with(|d| d.borrow().len());
+            SNAP.with(|s| *s.borrow_mut() = Some((c, n)));
+        }
+    }
     let outcome = def.script.get(inv).copied().unwrap_or(Outcome::Unhandled);
     LOG.with(|l| l.borrow_mut().push(Event { id, passed: m, rip_seen, count_seen, digest_seen, outcome, inner_registration_ok: inner, rip_set }));
     match outcome {
@@ -273,6 +282,7 @@ impl C12 {
         DEFS.with(|d| *d.borrow_mut() = defs.clone());
         INV.with(|v| *v.borrow_mut() = vec![0; HOOK_FNS.len()]);
         LOG.with(|l| l.borrow_mut().clear());
+        SNAP.with(|s| *s.borrow_mut() = None);
         PROG.with(|p| *p.borrow_mut() = prog.code.clone());
         let fail = |col: &mut Collector, rule: &str, detail: String, step: u64| {
             let cfg: Vec<String> = DEFS.with(|d| d.borrow().iter().enumerate().map(|(i, h)| format!("#{} {:?} {} {:?}{}", i, h.mnemonic, if h.before { "before" } else { "after" }, h.script, if h.try_register { " +registers-from-inside" } else { "" })).collect());
@@ -552,6 +562,30 @@ impl C12 {
                     break;
                 }
                 continue;
+            }
+            // a copy of the machine that a hook took while it was running is a machine like any other: when it is
+            // stepped, the hooks registered for the instruction it executes run
+            if let Some((mut c, ndefs)) = SNAP.with(|s| s.borrow_mut().take()) {
+                let crip = c.reg_read_64(SR::RIP).unwrap_or(0);
+                if let Some(ci) = decode_at(&prog.code, proggen::CODE_AT, crip) {
+                    let cname = format!("{:?}", ci.mnemonic());
+                    let owed = DEFS.with(|d| d.borrow().iter().take(ndefs).any(|d| d.before && format!("{:?}", d.mnemonic) == cname));
+                    let l0 = LOG.with(|l| l.borrow().len());
+                    let inv0 = INV.with(|v| v.borrow().clone());
+                    let cr = call(|| block_on(c.step()));
+                    let ran = LOG.with(|l| l.borrow().len()) - l0;
+                    // the copy's events are not part of the run under observation
+                    LOG.with(|l| l.borrow_mut().truncate(l0));
+                    INV.with(|v| *v.borrow_mut() = inv0);
+                    SNAP.with(|s| *s.borrow_mut() = None);
+                    col.distinct_key(&format!("snapshot-inside-hook|{}|{}", owed, ran.min(2)));
+                    if cr.is_panic() {
+                        return fail(col, &format!("step-panic:{}", cr.panic_key()), format!("stepping a copy taken inside a hook: {}", cr.describe()), steps);
+                    }
+                    if owed && ran == 0 && !c.verif_finished() {
+                        return fail(col, "hooks-not-run-on-a-copy-taken-inside-a-hook", format!("the copy executed {} (step -> {}) and none of the before hooks registered for it ran", ci, cr.kind()), steps);
+                    }
+                }
             }
             if stopped || matches!(r, Call::Ok(false)) {
                 break;
